@@ -120,7 +120,8 @@ Proof.
       * destruct (getZ (parse_int TSize (c_cfoff c)) (c_u_cfoff c) 0) as [o eo].
         destruct (getZ (parse_int TSize (c_cflen c)) (c_u_cflen c) 1000) as [l2 el2].
         destruct (getZ (parse_int TSize (c_cfstride c)) (c_u_cfstride c) 1) as [s2 es2].
-        destruct (s2 =? 0) eqn:Es2; cbn [r_uses r_err r_state app]; (split; [ok_nz|]);
+        destruct (s2 =? 0) eqn:Es2; [| destruct ((int_max <=? l2) || (int_max <=? o) || (int_max / (l2 + o + 1) <? s2)) eqn:Eb];
+          cbn [r_uses r_err r_state app]; (split; [ok_nz|]);
           intros _ sa sr; unfold colvar_step_uses; cbn [s_tsf s_runave s_rastride];
           destruct (1 <? tsf) eqn:E1; ok_nz.
       * cbn [r_uses r_err r_state app]. split; [ok_nz|].
@@ -130,7 +131,8 @@ Proof.
     + destruct (getZ (parse_int TSize (c_cfoff c)) (c_u_cfoff c) 0) as [o eo].
       destruct (getZ (parse_int TSize (c_cflen c)) (c_u_cflen c) 1000) as [l2 el2].
       destruct (getZ (parse_int TSize (c_cfstride c)) (c_u_cfstride c) 1) as [s2 es2].
-      destruct (s2 =? 0) eqn:Es2; cbn [r_uses r_err r_state app]; (split; [ok_nz|]);
+      destruct (s2 =? 0) eqn:Es2; [| destruct ((int_max <=? l2) || (int_max <=? o) || (int_max / (l2 + o + 1) <? s2)) eqn:Eb];
+          cbn [r_uses r_err r_state app]; (split; [ok_nz|]);
         intros _ sa sr; unfold colvar_step_uses; cbn [s_tsf s_runave s_rastride];
         destruct (1 <? tsf) eqn:E1; ok_nz.
     + cbn [r_uses r_err r_state app]. split; [reflexivity|].
@@ -138,30 +140,112 @@ Proof.
         destruct (1 <? tsf) eqn:E1; ok_nz.
 Qed.
 
-(* corrFuncLength / corrFuncStride / corrFuncOffset reach calc_acf unchecked (recorded defects) *)
-Definition corr_conf (len stride off : Z) : cvconf :=
-  mkCvConf None false None None true (Some (TokInt len)) (Some (TokInt stride)) (Some (TokInt off)) 0 0 0 0 0.
-
+(* corrFuncLength / corrFuncStride / corrFuncOffset: the bound checked in parse_analysis makes the uses of calc_acf safe *)
 Definition harness_bytes : Z := 3 * 2 ^ 30.
 
-Lemma corrfunc_sizes_refuted :
-  (* wrap of acf_length+1: nothing is allocated and calc_coor_acf writes through acf.begin() *)
-  (exists c, r_err (colvar_init 0 c) = false /\
-             forall host, all_ok (corrfunc_uses host (r_state (colvar_init 0 c)) 0) = false) /\
-  (* a length / a stride the host cannot allocate: std::bad_alloc leaves the library *)
-  (exists c, r_err (colvar_init 0 c) = false /\ all_ok (corrfunc_uses harness_bytes (r_state (colvar_init 0 c)) 0) = false) /\
-  (exists c, r_err (colvar_init 0 c) = false /\ all_ok (corrfunc_uses harness_bytes (r_state (colvar_init 0 c)) 0) = false /\ s_cflen (r_state (colvar_init 0 c)) = 2) /\
-  (* an offset beyond the history: the iterator is advanced past the end of the list *)
-  (exists c h, r_err (colvar_init 0 c) = false /\ all_ok (corrfunc_uses two64 (r_state (colvar_init 0 c)) h) = false).
+Lemma getZ_size_nonneg t cur def : 0 <= def -> 0 <= fst (getZ (parse_int TSize t) cur def).
 Proof.
-  split; [|split; [|split]].
-  - exists (corr_conf (-1) 1 1). split; [reflexivity|]. intros host.
-    assert (E : r_state (colvar_init 0 (corr_conf (-1) 1 1)) = mkCv 1 false 0 0 true (two64 - 1) 1 1) by reflexivity.
-    rewrite E. unfold corrfunc_uses. cbn [s_corr s_cflen s_cfoff s_cfstride].
-    rewrite all_ok_app. apply andb_false_iff. right. vm_compute. reflexivity.
-  - exists (corr_conf 2147483647 1 0). split; reflexivity.
-  - exists (corr_conf 2 2147483647 0). repeat split; vm_compute; reflexivity.
-  - exists (corr_conf 1000 1 (-1)), 999. split; reflexivity.
+  intro Hd. destruct (parse_int TSize t) as [|v|] eqn:E; cbn [getZ fst]; try exact Hd.
+  apply parse_int_in_range in E. unfold in_range in E. b2p. lia.
+Qed.
+
+Lemma corrfunc_safe rof c :
+  r_err (colvar_init rof c) = false -> forall h, all_ok (corrfunc_uses (r_state (colvar_init rof c)) h) = true.
+Proof.
+  unfold colvar_init.
+  destruct (getZ (parse_int TInt (c_tsf c)) 1 1) as [tsf e1].
+  destruct (tsf <? 0) eqn:Etsf; [cbn; discriminate|].
+  assert (Hra : forall (X : Z * Z * bool * list use * bool), True) by (intros; exact I). clear Hra.
+  destruct (c_runave c) eqn:Era.
+  - destruct (getZ (parse_int TSize (c_ralen c)) (c_u_ralen c) 1000) as [l el].
+    destruct (getZ (parse_int TSize (c_rastride c)) (c_u_rastride c) 1) as [s es].
+    destruct (s =? 0) eqn:Es; [cbn; discriminate|].
+    destruct (c_corr c) eqn:Eco; [| intros _ h; unfold corrfunc_uses; cbn [r_state s_corr]; reflexivity].
+    pose proof (getZ_size_nonneg (c_cfoff c) (c_u_cfoff c) 0 ltac:(lia)) as Ho.
+    pose proof (getZ_size_nonneg (c_cflen c) (c_u_cflen c) 1000 ltac:(lia)) as Hl.
+    destruct (getZ (parse_int TSize (c_cfoff c)) (c_u_cfoff c) 0) as [o eo].
+    destruct (getZ (parse_int TSize (c_cflen c)) (c_u_cflen c) 1000) as [l2 el2].
+    destruct (getZ (parse_int TSize (c_cfstride c)) (c_u_cfstride c) 1) as [s2 es2]. cbn [fst] in Ho, Hl.
+    destruct (s2 =? 0) eqn:Es2; [cbn [r_err]; rewrite ?orb_true_r; discriminate|].
+    destruct ((int_max <=? l2) || (int_max <=? o) || (int_max / (l2 + o + 1) <? s2)) eqn:Eb;
+      [cbn [r_err]; rewrite ?orb_true_r; discriminate|].
+    intros _ h. unfold corrfunc_uses. cbn [r_state s_corr s_cflen s_cfoff]. b2p.
+    assert (Hi : 2 * int_max < two64 /\ 0 < int_max) by (split; reflexivity).
+    rewrite (Z.mod_small (l2 + 1) two64) by lia. rewrite (Z.mod_small (l2 + o) two64) by lia.
+    destruct (l2 + o <=? h) eqn:Eh; [|reflexivity]. b2p.
+    cbn [all_ok forallb u_ok]. rewrite andb_true_r. apply andb_true_iff. split; [apply Z.leb_le | apply Z.leb_le]; lia.
+  - destruct (c_corr c) eqn:Eco; [| intros _ h; unfold corrfunc_uses; cbn [r_state s_corr]; reflexivity].
+    pose proof (getZ_size_nonneg (c_cfoff c) (c_u_cfoff c) 0 ltac:(lia)) as Ho.
+    pose proof (getZ_size_nonneg (c_cflen c) (c_u_cflen c) 1000 ltac:(lia)) as Hl.
+    destruct (getZ (parse_int TSize (c_cfoff c)) (c_u_cfoff c) 0) as [o eo].
+    destruct (getZ (parse_int TSize (c_cflen c)) (c_u_cflen c) 1000) as [l2 el2].
+    destruct (getZ (parse_int TSize (c_cfstride c)) (c_u_cfstride c) 1) as [s2 es2]. cbn [fst] in Ho, Hl.
+    destruct (s2 =? 0) eqn:Es2; [cbn [r_err]; rewrite ?orb_true_r; discriminate|].
+    destruct ((int_max <=? l2) || (int_max <=? o) || (int_max / (l2 + o + 1) <? s2)) eqn:Eb;
+      [cbn [r_err]; rewrite ?orb_true_r; discriminate|].
+    intros _ h. unfold corrfunc_uses. cbn [r_state s_corr s_cflen s_cfoff]. b2p.
+    assert (Hi : 2 * int_max < two64 /\ 0 < int_max) by (split; reflexivity).
+    rewrite (Z.mod_small (l2 + 1) two64) by lia. rewrite (Z.mod_small (l2 + o) two64) by lia.
+    destruct (l2 + o <=? h) eqn:Eh; [|reflexivity]. b2p.
+    cbn [all_ok forallb u_ok]. rewrite andb_true_r. apply andb_true_iff. split; [apply Z.leb_le | apply Z.leb_le]; lia.
+Qed.
+
+(* accepted also bounds the capacity of the histories: stride * (length + offset + 1) <= INT_MAX *)
+Lemma corrfunc_capacity rof c :
+  r_err (colvar_init rof c) = false -> s_corr (r_state (colvar_init rof c)) = true ->
+  let st := r_state (colvar_init rof c) in
+  0 <= s_cflen st < int_max /\ 0 <= s_cfoff st < int_max /\
+  s_cfstride st * (s_cflen st + s_cfoff st + 1) <= int_max.
+Proof.
+  unfold colvar_init.
+  destruct (getZ (parse_int TInt (c_tsf c)) 1 1) as [tsf e1].
+  destruct (tsf <? 0) eqn:Etsf; [cbn; discriminate|].
+  assert (G : forall l2 o s2, 0 <= l2 -> 0 <= o ->
+            (int_max <=? l2) || (int_max <=? o) || (int_max / (l2 + o + 1) <? s2) = false ->
+            0 <= l2 < int_max /\ 0 <= o < int_max /\ s2 * (l2 + o + 1) <= int_max).
+  { intros l2 o s2 Hl Ho Eb. b2p. repeat split; try lia.
+    pose proof (Z.mul_div_le int_max (l2 + o + 1) ltac:(lia)). nia. }
+  destruct (c_runave c) eqn:Era.
+  - destruct (getZ (parse_int TSize (c_ralen c)) (c_u_ralen c) 1000) as [l el].
+    destruct (getZ (parse_int TSize (c_rastride c)) (c_u_rastride c) 1) as [s es].
+    destruct (s =? 0) eqn:Es; [cbn; discriminate|].
+    destruct (c_corr c) eqn:Eco; [| cbn [r_state s_corr]; intros _ H; discriminate H].
+    pose proof (getZ_size_nonneg (c_cfoff c) (c_u_cfoff c) 0 ltac:(lia)) as Ho.
+    pose proof (getZ_size_nonneg (c_cflen c) (c_u_cflen c) 1000 ltac:(lia)) as Hl.
+    destruct (getZ (parse_int TSize (c_cfoff c)) (c_u_cfoff c) 0) as [o eo].
+    destruct (getZ (parse_int TSize (c_cflen c)) (c_u_cflen c) 1000) as [l2 el2].
+    destruct (getZ (parse_int TSize (c_cfstride c)) (c_u_cfstride c) 1) as [s2 es2]. cbn [fst] in Ho, Hl.
+    destruct (s2 =? 0) eqn:Es2; [cbn [r_err]; rewrite ?orb_true_r; discriminate|].
+    destruct ((int_max <=? l2) || (int_max <=? o) || (int_max / (l2 + o + 1) <? s2)) eqn:Eb;
+      [cbn [r_err]; rewrite ?orb_true_r; discriminate|].
+    intros _ _. cbn [r_state s_cflen s_cfoff s_cfstride]. apply G; assumption.
+  - destruct (c_corr c) eqn:Eco; [| cbn [r_state s_corr]; intros _ H; discriminate H].
+    pose proof (getZ_size_nonneg (c_cfoff c) (c_u_cfoff c) 0 ltac:(lia)) as Ho.
+    pose proof (getZ_size_nonneg (c_cflen c) (c_u_cflen c) 1000 ltac:(lia)) as Hl.
+    destruct (getZ (parse_int TSize (c_cfoff c)) (c_u_cfoff c) 0) as [o eo].
+    destruct (getZ (parse_int TSize (c_cflen c)) (c_u_cflen c) 1000) as [l2 el2].
+    destruct (getZ (parse_int TSize (c_cfstride c)) (c_u_cfstride c) 1) as [s2 es2]. cbn [fst] in Ho, Hl.
+    destruct (s2 =? 0) eqn:Es2; [cbn [r_err]; rewrite ?orb_true_r; discriminate|].
+    destruct ((int_max <=? l2) || (int_max <=? o) || (int_max / (l2 + o + 1) <? s2)) eqn:Eb;
+      [cbn [r_err]; rewrite ?orb_true_r; discriminate|].
+    intros _ _. cbn [r_state s_cflen s_cfoff s_cfstride]. apply G; assumption.
+Qed.
+
+(* what the unrepaired parse_analysis accepted *)
+Lemma corrfunc_old_refuted :
+  all_ok (corrfunc_uses (corr_state_old (two64 - 1) 1 1) 0) = false /\           (* corrFuncLength -1, offset 1 *)
+  all_ok (corrfunc_uses (corr_state_old 1000 1 (two64 - 1)) 999) = false.        (* corrFuncOffset -1 *)
+Proof. split; vm_compute; reflexivity. Qed.
+
+Lemma scripted_safe host t :
+  all_ok (r_uses (scripted_init host t)) = true /\
+  (r_err (scripted_init host t) = false -> 1 <= r_state (scripted_init host t) <= int_max /\ r_state (scripted_init host t) * 8 <= host).
+Proof.
+  unfold scripted_init. destruct (parse_int TInt t) as [|n|] eqn:E; try (cbn; split; [reflexivity|discriminate]).
+  destruct (n <? 1) eqn:En; [cbn; split; [reflexivity|discriminate]|].
+  cbn [r_uses r_err r_state]. apply parse_int_in_range in E. unfold in_range in E. b2p. split.
+  - cbn [all_ok forallb u_ok]. rewrite andb_true_r. apply Z.ltb_lt. lia.
+  - intro Hacc. b2p. unfold int_max. lia.
 Qed.
 
 (* ------------------------------------------------------------------------------------------------ *)
@@ -191,22 +275,27 @@ Qed.
 
 Lemma meta_safe rof c :
   all_ok (r_uses (meta_init rof c)) = true /\
-  forall sr, all_ok (meta_step_uses (r_state (meta_init rof c)) sr) = true.
+  (r_err (meta_init rof c) = false ->
+   forall sr, all_ok (meta_step_uses (r_state (meta_init rof c)) sr) = true).
 Proof.
   unfold meta_init.
   destruct (getZ (parse_int TSize (m_newhill c)) 1000 1000) as [nh e1].
-  destruct (m_usegrids c) eqn:Eg.
-  - destruct (getZ (parse_int TSize (m_gridsfreq c)) (if 0 <? nh then nh else 0) (if 0 <? nh then nh else 0)) as [gf e2].
-    cbn [r_uses r_state]. rewrite bias_init_uses. split; [reflexivity|]. intro sr.
-    unfold meta_step_uses. cbn [sm_base sm_history sm_newhill sm_usegrids sm_gridsfreq andb].
-    split_ok; [apply bias_step_safe | destruct (0 <? nh) eqn:E; ok_nz | destruct (0 <? gf) eqn:E; ok_nz].
-  - cbn [r_uses r_state]. rewrite bias_init_uses. split; [reflexivity|]. intro sr.
-    unfold meta_step_uses. cbn [sm_base sm_history sm_newhill sm_usegrids sm_gridsfreq andb].
-    split_ok; [apply bias_step_safe | destruct (0 <? nh) eqn:E; ok_nz | reflexivity].
+  destruct (if m_usegrids c then getZ (parse_int TSize (m_gridsfreq c)) (if 0 <? nh then nh else 0) (if 0 <? nh then nh else 0)
+            else (if 0 <? nh then nh else 0, false)) as [gf e2].
+  destruct (if m_replicas c then getZ (parse_int TSize (m_upfreq c)) 0 0 else (0, false)) as [uf e3].
+  cbn [r_uses r_state r_err]. rewrite bias_init_uses. split; [reflexivity|]. intros Hacc sr.
+  unfold meta_step_uses. cbn [sm_base sm_history sm_newhill sm_usegrids sm_gridsfreq sm_replicas sm_upfreq].
+  split_ok.
+  - apply bias_step_safe.
+  - destruct (0 <? nh) eqn:E; ok_nz.
+  - destruct (m_usegrids c && (0 <? gf)) eqn:E; ok_nz.
+  - destruct (m_replicas c) eqn:Er; [|reflexivity]. b2p. cbn [andb] in *.
+    split_ok; [ok_nz | destruct (0 <? nh) eqn:E; ok_nz].
 Qed.
 
 (* before the repairs: newHillFrequency 0 (documented way to stop adding hills) and gridsUpdateFrequency 0
-   were accepted and the moduli were evaluated at the next step *)
+   were accepted and the moduli were evaluated at the next step; with a second replica newHillFrequency 0 was a
+   divisor in read_replica_files *)
 Lemma meta_old_refuted :
   (exists c, r_err (meta_init 0 c) = false /\ all_ok (meta_step_uses_old (r_state (meta_init 0 c))) = false /\
              sm_newhill (r_state (meta_init 0 c)) = 0) /\
@@ -214,9 +303,13 @@ Lemma meta_old_refuted :
              sm_newhill (r_state (meta_init 0 c)) = 2 /\ sm_gridsfreq (r_state (meta_init 0 c)) = 0).
 Proof.
   split.
-  - exists (mkMetaConf (mkBiasConf None None) (Some (TokInt 0)) true None). repeat split; reflexivity.
-  - exists (mkMetaConf (mkBiasConf None None) (Some (TokInt 2)) true (Some (TokInt 0))). repeat split; reflexivity.
+  - exists (mkMetaConf (mkBiasConf None None) (Some (TokInt 0)) true None false None). repeat split; reflexivity.
+  - exists (mkMetaConf (mkBiasConf None None) (Some (TokInt 2)) true (Some (TokInt 0)) false None). repeat split; reflexivity.
 Qed.
+
+Lemma meta_replica_old_refuted :
+  exists c, r_err (meta_init 0 c) = false /\ all_ok (meta_replica_div_old (r_state (meta_init 0 c))) = false.
+Proof. exists (mkMetaConf (mkBiasConf None None) (Some (TokInt 0)) true None true (Some (TokInt 2))). split; reflexivity. Qed.
 
 Lemma abf_safe rof c :
   all_ok (r_uses (abf_init rof c)) = true /\
@@ -275,34 +368,41 @@ Proof.
   unfold opes_init. pose proof (bias_init_uses rof (o_base c)) as Hu.
   destruct (getZ (parse_int TStep (o_pace c)) 0 0) as [pace e1].
   destruct (pace <=? 0) eqn:Ep; [cbn [r_uses r_err]; rewrite Hu; split; [reflexivity|discriminate]|].
+  assert (Hrest : forall ads e2 u2, all_ok u2 = true ->
+    let r := (let '(ph, e3) := if o_pmf c then getZ (parse_int TStep (o_pmfhist c)) 0 0 else (0, false) in
+      let '(tf0, e4) := getZ (parse_int TStep (o_trajfreq c)) 0 tf in
+      let '(sh, e5) := if o_replicas c then getZ (parse_int TSize (o_shared c)) (o_u_shared c) (s_outfreq (r_state (bias_init rof (o_base c))))
+                       else (o_u_shared c, false) in
+      mkRes (mkOpes (r_state (bias_init rof (o_base c))) pace (o_adaptive c) ads (o_pmf c) ph tf0 (o_replicas c) (o_nlist c) sh)
+            (r_err (bias_init rof (o_base c)) || e1 || e2 || e3 || e4 || e5) (r_uses (bias_init rof (o_base c)) ++ u2)) in
+    all_ok (r_uses r) = true /\ (r_err r = false -> forall rof' sr, all_ok (opes_step_uses (r_state r) rof' sr) = true)).
+  { intros ads e2 u2 Hu2.
+    destruct (if o_pmf c then getZ (parse_int TStep (o_pmfhist c)) 0 0 else (0, false)) as [ph e3].
+    destruct (getZ (parse_int TStep (o_trajfreq c)) 0 tf) as [tf' e4].
+    destruct (if o_replicas c then getZ (parse_int TSize (o_shared c)) (o_u_shared c) (s_outfreq (r_state (bias_init rof (o_base c))))
+              else (o_u_shared c, false)) as [sh e5].
+    cbn [r_uses r_err r_state]. rewrite Hu. cbn [app]. split; [exact Hu2|]. intros _ rof' sr.
+    unfold opes_step_uses; cbn [so_base so_pace so_pmf so_pmfhist so_trajfreq so_nlist so_replicas so_shared].
+    split_ok.
+    - apply bias_step_safe.
+    - ok_nz.
+    - destruct (0 <? rof') eqn:E; ok_nz.
+    - destruct (o_pmf c && (0 <? ph)) eqn:E; ok_nz.
+    - destruct (0 <? tf') eqn:E; ok_nz.
+    - destruct (o_nlist c && o_replicas c && (0 <? sh)) eqn:E; ok_nz. }
   destruct (o_adaptive c) eqn:Ea.
   - destruct (getZ (parse_int TStep (o_adstride c)) (o_u_adstride c) 0) as [s0 es].
     destruct ((if s0 =? 0 then pace * 10 else s0) <? pace) eqn:Es;
       [cbn [r_uses r_err]; rewrite Hu; split; [reflexivity|discriminate]|].
-    destruct (o_pmf c) eqn:Epm.
-    + destruct (getZ (parse_int TStep (o_pmfhist c)) 0 0) as [ph e3].
-      destruct (getZ (parse_int TStep (o_trajfreq c)) 0 tf) as [tf' e4].
-      cbn [r_uses r_err r_state]. rewrite Hu. cbn [app]. split; [ok_nz|]. intros _ rof' sr.
-      unfold opes_step_uses; cbn [so_base so_pace so_pmf so_pmfhist so_trajfreq andb].
-      split_ok; [apply bias_step_safe | ok_nz | destruct (0 <? rof') eqn:E; ok_nz
-                | destruct (0 <? ph) eqn:E; ok_nz | destruct (0 <? tf') eqn:E; ok_nz].
-    + destruct (getZ (parse_int TStep (o_trajfreq c)) 0 tf) as [tf' e4].
-      cbn [r_uses r_err r_state]. rewrite Hu. cbn [app]. split; [ok_nz|]. intros _ rof' sr.
-      unfold opes_step_uses; cbn [so_base so_pace so_pmf so_pmfhist so_trajfreq andb].
-      split_ok; [apply bias_step_safe | ok_nz | destruct (0 <? rof') eqn:E; ok_nz
-                | reflexivity | destruct (0 <? tf') eqn:E; ok_nz].
-  - destruct (o_pmf c) eqn:Epm.
-    + destruct (getZ (parse_int TStep (o_pmfhist c)) 0 0) as [ph e3].
-      destruct (getZ (parse_int TStep (o_trajfreq c)) 0 tf) as [tf' e4].
-      cbn [r_uses r_err r_state]. rewrite Hu. cbn [app]. split; [reflexivity|]. intros _ rof' sr.
-      unfold opes_step_uses; cbn [so_base so_pace so_pmf so_pmfhist so_trajfreq andb].
-      split_ok; [apply bias_step_safe | ok_nz | destruct (0 <? rof') eqn:E; ok_nz
-                | destruct (0 <? ph) eqn:E; ok_nz | destruct (0 <? tf') eqn:E; ok_nz].
-    + destruct (getZ (parse_int TStep (o_trajfreq c)) 0 tf) as [tf' e4].
-      cbn [r_uses r_err r_state]. rewrite Hu. cbn [app]. split; [reflexivity|]. intros _ rof' sr.
-      unfold opes_step_uses; cbn [so_base so_pace so_pmf so_pmfhist so_trajfreq andb].
-      split_ok; [apply bias_step_safe | ok_nz | destruct (0 <? rof') eqn:E; ok_nz
-                | reflexivity | destruct (0 <? tf') eqn:E; ok_nz].
+    apply Hrest. ok_nz.
+  - apply Hrest. reflexivity.
+Qed.
+
+Lemma opes_shared_old_refuted :
+  exists c, r_err (opes_init 0 1 c) = false /\ all_ok (opes_shared_use_old (r_state (opes_init 0 1 c))) = false.
+Proof.
+  exists (mkOpesConf (mkBiasConf None None) (Some (TokInt 2)) false None false None None 0 true true None 0).
+  split; reflexivity.
 Qed.
 
 (* ------------------------------------------------------------------------------------------------ *)
